@@ -113,9 +113,14 @@ func (c *c14env) commit(cid []byte, reps []int64, alphaClass int) bool {
 			exp = false
 		}
 	}
-	args := make([]any, len(reps))
-	for i, r := range reps {
-		args[i] = r
+	// reps == nil is passed as Null ("no placement policy", documented), an empty slice as an empty array
+	var args any
+	if reps != nil {
+		a := make([]any, len(reps))
+		for i, r := range reps {
+			a[i] = r
+		}
+		args = a
 	}
 	r := c.w.Invoke(s, c.cn, "commitContainerListUpdate", cid, args)
 	b.Tx(1)
@@ -125,6 +130,12 @@ func (c *c14env) commit(cid []byte, reps []int64, alphaClass int) bool {
 	}
 	if r.Halted() {
 		empty := len(ro.pending) == 0
+		if reps == nil {
+			b.Hit("commit-with-null-replicas")
+			if !empty {
+				b.Hit("commit-with-null-replicas-and-pending-roster")
+			}
+		}
 		if len(ro.committed) > 0 {
 			b.Hit("re-commit")
 		}
@@ -506,12 +517,19 @@ func runC14(b *runner.Batch) {
 		cid := runner.Pick(b.Rng, cids)
 		switch b.Rng.IntN(5) {
 		case 0:
-			reps := make([]int64, 1+b.Rng.IntN(3))
-			for j := range reps {
-				reps[j] = int64(1 + b.Rng.IntN(4))
-			}
-			if b.Rng.IntN(10) == 0 {
-				reps[0] = 256
+			var reps []int64
+			switch b.Rng.IntN(7) {
+			case 0: // Null: commit without a placement policy, whatever is pending (seeded change C14-3)
+			case 1:
+				reps = []int64{}
+			default:
+				reps = make([]int64, 1+b.Rng.IntN(3))
+				for j := range reps {
+					reps[j] = int64(1 + b.Rng.IntN(4))
+				}
+				if b.Rng.IntN(10) == 0 {
+					reps[0] = 256
+				}
 			}
 			c.commit(cid, reps, c.pickAlpha(8))
 		default:
